@@ -6,6 +6,7 @@ pub mod chains;
 pub mod crls;
 pub mod csrs;
 pub mod imports;
+pub mod keymon;
 pub mod c13;
 pub mod c20;
 
@@ -33,6 +34,30 @@ pub fn dispatch(ctx: &Ctx, _extra: &[String]) -> (String, String) {
 			(
 				"case = one edit history (sequence of push/remove); exhaustive histories are enumerated (distinct by construction) and additionally the distinct reached states (hash of the model enumeration) are counted; a history is non-trivial when it has at least one operation".into(),
 				"all histories up to the stated length over 12 operations".into(),
+			)
+		},
+		#[cfg(all(feature = "crypto", feature = "ossl"))]
+		"C11" => {
+			keymon::run_c11(ctx);
+			(
+				"case = (base key, loading route) and (base key, requested algorithm, explicit loader); base keys are fresh per run (back-end generated and OpenSSL generated, every family); enumerated pairs are counted per (family, route) / (key family, algorithm family, route) class and additionally every load is counted".into(),
+				"all (key family x algorithm x explicit loader) pairs; all (key family x loading route x reload route) triples".into(),
+			)
+		},
+		#[cfg(all(feature = "crypto", feature = "ossl"))]
+		"C14" => {
+			keymon::run_c14(ctx);
+			(
+				"case = one PEM text (kind, DER length); certificates/CSRs/CRLs swept over consecutive DER lengths (residues mod 3 and mod 48 are recorded, a sweep that misses a residue makes the run inconclusive); keys of every family and RSA size".into(),
+				String::new(),
+			)
+		},
+		#[cfg(all(feature = "crypto", feature = "ossl"))]
+		"C19" => {
+			keymon::run_c19(ctx);
+			(
+				"case = one key; every public output and diagnostic reachable with it (artefacts, Debug renderings, Display/Debug of every error from feeding key-bearing texts and DER to every loader/parser under every algorithm) is scanned for 12-byte windows of the private components in raw, hex, decimal-list and base64 form; positive controls prove the scanner sees the secret in the export functions".into(),
+				String::new(),
 			)
 		},
 		#[cfg(all(feature = "crypto", feature = "ossl"))]
